@@ -444,6 +444,9 @@ func (c *Conn) CloseWrite() error {
 	return nil
 }
 
+// PeerClosed reports whether the other end was closed locally.
+func (c *Conn) PeerClosed() bool { return c.peer.closed }
+
 // Closed reports whether this end was closed locally.
 func (c *Conn) Closed() bool { return c.closed }
 
